@@ -160,8 +160,8 @@ ENGINES = [
         '(build/asan/fx ...) built from /repo working tree; oracles (reference codec, models) in Python'},
     {'name': 'E2', 'path': 'harness/cpp/fuzz_*.cpp', 'serves_properties': [], 'kind_free_text':
         'libFuzzer targets (clang -fsanitize=fuzzer,address,undefined) with the semantic oracle inside the target'},
-    {'name': 'E3', 'path': 'harness/cpp/thr_*.cpp', 'serves_properties': [], 'kind_free_text':
-        'generated concurrent workloads / generated schedules over real threads (asan and tsan builds)'},
+    {'name': 'E3', 'path': 'harness/cpp/fx_thr.cpp (loggers, queue, timer) and fx_sess.cpp (sess conc)', 'serves_properties': [], 'kind_free_text':
+        'generated concurrent workloads over real threads (ASan and TSan builds), generated schedules driven through guarded yield points (C30), the real timer thread on a virtual clock (C31)'},
 ]
 
 
